@@ -206,6 +206,42 @@ def rule_p1(ctx, F):
         adds = find(fn, "ts_range_array_add(differences, current_position, _)")
         ctx.floor("difference appends in ts_range_array_get_changed_ranges", len(adds), 3)
         ctx.gate("P1", fn, [pt for pt, n in adds], [("a span is a difference only where exactly one list covers it", "in_old_range != in_new_range", True)], accept_desc="appending a difference span")
+        # …and in every step of the sweep: before the position advances or a list changes state, the span
+        # just passed was tested (and appended when exactly one list covered it)
+        add_pts = {pt for pt, n in adds}
+        step = {pt for pt, n in find(fn, "current_position = _")} | {pt for pt, n in find(fn, "in_old_range = !in_old_range")} | {pt for pt, n in find(fn, "in_new_range = !in_new_range")}
+        head = {pt for pt, e in fn.points() if e.get("k") == "decl" and e.get("name") == fn.cur("next_old_position")}
+        bind_names(fn, ["in_old_range", "in_new_range"]) if "bind_names" in globals() and False else None
+
+        class Sweep(Monitor):
+            # 0 untested, 1 tested: nothing to add, 2 tested: add pending, 3 added
+            def elem(self, m, pt, e, s):
+                if pt in head:
+                    return 0
+                if pt in add_pts:
+                    return 3
+                if pt in step and m in (0, 2):
+                    return Viol("the sweep advances without %s" % ("having tested whether exactly one range list covers the span just passed" if m == 0 else "appending the span it found to differ"), pt)
+                return m
+
+            def edge(self, m, bid, edge, cond, truth, s):
+                if cond is not None and truth is not None and m == 0:
+                    if s.m.cond_matches("in_old_range != in_new_range", True, cond, truth):
+                        return 2
+                    if s.m.cond_matches("in_old_range != in_new_range", False, cond, truth):
+                        return 1
+                return m
+        ctx.floor("sweep steps in ts_range_array_get_changed_ranges", len(step), 7)
+        if not head:
+            ctx.bad("P1", "ts_range_array_get_changed_ranges:every-step-tests-the-span", "loop head (declaration of next_old_position) not found")
+        else:
+            srch = Search(fn, Sweep())
+            v = srch.run(1)
+            if v is None:
+                ctx.ok("P1", "ts_range_array_get_changed_ranges:every-step-tests-the-span", "each step of the range sweep tests the span it leaves behind and appends it when exactly one list covered it (%d states)" % srch.states)
+            else:
+                ctx.bad("P1", "ts_range_array_get_changed_ranges:every-step-tests-the-span", "ts_range_array_get_changed_ranges: %s (%s) — text whose inclusion changed is then not invalidated for reuse / not reported as changed" % (v.msg, fn.loc(v.pt)),
+                        {"site": fn.loc(v.pt), "path": srch.render_path(v.path)[-6:]})
 
 
 def rule_g3(ctx, F):
